@@ -482,8 +482,14 @@ func (cr *checkRun) report(verif, evPath string, seed int, t0 time.Time, writeBa
 	}
 	cov := map[string]interface{}{
 		"slowest":            slowest,
-		"obligations":        len(cr.obs),
-		"discharged":         discharged,
+		// obligations = what this property's claim needs discharged: everything generated, minus the
+		// obligations recorded as known findings (reported by KNOWN-FINDING lines) and minus the
+		// undischarged obligations that speak about other properties of the same functions
+		"obligations":                  len(cr.obs) - len(knownPrinted) - len(otherProps),
+		"obligations_generated":        len(cr.obs),
+		"known_finding_obligations":    len(knownPrinted),
+		"other_property_undischarged":  len(otherProps),
+		"discharged":                   discharged,
 		"checker_cmd":        fmt.Sprintf("/verif/bin/gocv check -prop %s -tier %s", cr.prop, cr.tier),
 		"trusted_base":       trusted,
 		"functions":          cr.fns,
@@ -508,7 +514,7 @@ func (cr *checkRun) report(verif, evPath string, seed int, t0 time.Time, writeBa
 	}
 	writeEvidence(evPath, cr.prop, cr.tier, seed, cov, time.Since(t0).Seconds(), nViol, assumptions)
 	fmt.Printf("%s %s: functions=%d obligations=%d discharged=%d lemmas=%d violations=%d known=%d undecided=%d wall=%.1fs\n",
-		cr.prop, cr.tier, len(cr.fns), len(cr.obs), discharged, cr.lemmaN, nViol, len(knownPrinted), len(cr.undecided), time.Since(t0).Seconds())
+		cr.prop, cr.tier, len(cr.fns), len(cr.obs)-len(knownPrinted)-len(otherProps), discharged, cr.lemmaN, nViol, len(knownPrinted), len(cr.undecided), time.Since(t0).Seconds())
 	_ = e
 	if nViol > 0 {
 		cleanTmp(); os.Exit(1)
